@@ -81,6 +81,9 @@ fn run_case_inner(tree: &Snap, invocations: &[Vec<String>]) -> Vec<String> {
     materialise(&base, tree);
     // something to hit outside of the working directory (C19)
     std::fs::write(dir.path().join("outside"), b"sentinel\n").unwrap();
+    // (the same inode and modification time must still be there afterwards: a file that is removed and written again
+    // with the same bytes has been touched)
+    let outside_id = { use std::os::unix::fs::MetadataExt; let m = std::fs::metadata(dir.path().join("outside")).unwrap(); (m.ino(), m.mtime(), m.mtime_nsec()) };
     let mut results = Vec::new();
     for (inv_no, inv) in invocations.iter().enumerate() {
         let (before, meta_before) = snapshot(&base);
@@ -152,7 +155,8 @@ fn run_case_inner(tree: &Snap, invocations: &[Vec<String>]) -> Vec<String> {
         let mut out_names: Vec<String> = std::fs::read_dir(dir.path()).unwrap().filter_map(|e| e.ok()).map(|e| e.file_name().to_string_lossy().into_owned()).collect();
         out_names.sort();
         let outside_ok = out_names == vec!["outside".to_string(), format!("twin{}", inv_no), "w".to_string()]
-            && std::fs::read(dir.path().join("outside")).map(|c| c == b"sentinel\n").unwrap_or(false);
+            && std::fs::read(dir.path().join("outside")).map(|c| c == b"sentinel\n").unwrap_or(false)
+            && { use std::os::unix::fs::MetadataExt; std::fs::metadata(dir.path().join("outside")).map(|m| (m.ino(), m.mtime(), m.mtime_nsec()) == outside_id).unwrap_or(false) };
         std::fs::remove_dir_all(&twin).unwrap();
         results.push(format!("exit={};failed={};tree={};newino={};same={};twin={};outside={};queues={}", exit, failed_patch, render_tree(&after),
             if newino.is_empty() { "-".to_string() } else { newino.join(",") }, same as u8,
